@@ -39,7 +39,8 @@ def gen_text(r, rich=True, maxlen=6):
 
 
 def gen_node(r, depth, names, allow_raw=True, html=False):
-    k = r.weighted([("elem", 10 if depth > 0 else 0), ("text", 8), ("comment", 2), ("pi", 1), ("raw", 1 if allow_raw else 0)])
+    k = r.weighted([("elem", 10 if depth > 0 else 0), ("text", 8), ("comment", 2), ("pi", 1), ("raw", 1 if allow_raw else 0),
+                    ("rtfraw", 1 if allow_raw else 0)])
     if k == "elem":
         return gen_elem(r, depth - 1, names, allow_raw, html)
     if k == "text":
@@ -48,6 +49,10 @@ def gen_node(r, depth, names, allow_raw=True, html=False):
         return ("comment", gen_text(r, rich=False))
     if k == "pi":
         return ("pi", r.choice(["t", "pi1"]), r.choice(["", "d", " d", "x y"]))
+    if k == "rtfraw":
+        # disable-output-escaping text replayed from a result tree fragment (xsl:copy-of of a variable): the serializer
+        # sees the marker PI <?Xalan raw?> and then an ordinary characters()/cdata() call
+        return ("rtfraw", r.choice(["r", "<r/>", "&#65;", "r s"]))
     return ("raw", r.choice(["r", "<r/>", "&#65;", "r s"]))
 
 
@@ -74,6 +79,10 @@ def gen_doc(r, maxdepth=3, names=NAMES, allow_raw=True):
     return pre + [root] + post
 
 
+RAW_MARKER = ("Xalan", "raw")      # FormatterListener::s_piTarget / s_piData
+_var_counter = [0]
+
+
 def events_of(nodes, cdata_elems=(), in_cd=False):
     """what XSLTEngineImpl sends (cdata stack as in flushPending/endElement/characters)"""
     ev = []
@@ -86,6 +95,9 @@ def events_of(nodes, cdata_elems=(), in_cd=False):
             ev.append(("C" if in_cd else "T", n[1]))
         elif n[0] == "raw":
             ev.append(("R", n[1]))
+        elif n[0] == "rtfraw":
+            ev.append(("P", RAW_MARKER[0], RAW_MARKER[1]))
+            ev.append(("C" if in_cd else "T", n[1]))
         elif n[0] == "comment":
             ev.append(("M", n[1]))
         elif n[0] == "pi":
@@ -148,6 +160,11 @@ def xsl_body(nodes):
             out.append("<xsl:text>" + esc_text(n[1]) + "</xsl:text>")
         elif n[0] == "raw":
             out.append('<xsl:text disable-output-escaping="yes">' + esc_text(n[1]) + "</xsl:text>")
+        elif n[0] == "rtfraw":
+            _var_counter[0] += 1
+            v = "v%d" % _var_counter[0]
+            out.append('<xsl:variable name="%s"><xsl:text disable-output-escaping="yes">%s</xsl:text></xsl:variable>'
+                       '<xsl:copy-of select="$%s"/>' % (v, esc_text(n[1]), v))
         elif n[0] == "comment":
             out.append("<xsl:comment><xsl:text>" + esc_text(n[1]) + "</xsl:text></xsl:comment>")
         elif n[0] == "pi":
